@@ -1,9 +1,10 @@
 #!/bin/sh
-# Builds /repo's current working tree with the guard OFF (plain cmake configuration, as the pinned
-# baseline does) in a scratch directory and runs the repository's ctest suite.
+# Guard OFF baseline: builds /repo's current working tree exactly as the pinned baseline did (plain
+# cmake, RelWithDebInfo, no LIBSCIENTIFIC_VERIF) in a scratch directory and runs every test binary;
+# the "<name>: OK" lines they print are compared with the 62 stable names of /root/.vp/BASELINE.json.
 set -e
 B=${1:-/verif/build/baseline_off}
 rm -rf "$B"
 cmake -G Ninja -S /repo -B "$B" -DCMAKE_BUILD_TYPE=RelWithDebInfo -DCMAKE_C_FLAGS=-Wno-error >/dev/null
 cmake --build "$B" -j16 >/dev/null
-ctest --test-dir "$B" -j8 --timeout 900 2>&1 | tail -15
+exec python3 /verif/tools/baseline_compare.py "$B"
